@@ -13,7 +13,7 @@ for p in "$@"; do
     f=$(echo "$out" | grep -o 'replay=[^ ]*' | head -1 | cut -d= -f2)
     python3 -c "
 import json,sys
-d=json.load(open('$f')); print('   ',d['rule'],'[%s]'%d['signature'],d['detail'][:300]); print('    ops',len(d['case']['script']), d.get('minimised'))"
+d=json.load(open('$f')); print('   ',d['rule'],'[%s]'%d['signature'],d['detail'][:300]); print('    ops',len(d['case'].get('script') or []), d.get('minimised'), d['case']['family'])"
     cp "$f" /tmp/last_mut_replay.json
   fi
 done
